@@ -72,6 +72,11 @@ CHECKS = {
   text="Proof: with `rights` an arbitrary function user -> path -> letters, each handler of the model is shown to decide an update only under the matching permission and to expose entries only for permitted collections; 403 carries no update. The write clause is partial: changes are confined to the subtree of a target whose root has the letter - that nested collections without any permission are destroyed with it is finding F7 (theorem + replay), the inverted d/D letter for plain collections is F8. Tie: generated policy tables through a rights plug-in, all methods, two users and anonymous, model vs real application; twin stores differing only inside hidden subtrees must answer identically; denied requests leave the collection tree byte-identical; every changed collection must be writable for the user.",
   note="Partial (write clause as stated above; full non-interference is checked by the twin-store oracle, not proved). Known findings F7, F8, F20 (existence probing 403 vs 404 under exotic policies) are reported as KNOWN-FINDING. Trusted: Lean kernel, standard axioms; davsim + verif_rights plug-in; timing channels out of scope.",
   ref="5/C03"),
+ "C05": dict(
+  technique="Lean 4 theorems on models of the htpasswd back-end (file parsing, scheme dispatch, autodetect with length fall-backs) and of the request gate (credential extraction, name mapping, unsafe-user refusal, who reaches a handler) + correspondence of Auth.login and whole requests for five back-ends",
+  text="Proof: an htpasswd login succeeds iff the file has an entry for the login whose hash verifies under the configured/detected scheme, and then as exactly that login; the identity a handler runs under is the back-end's answer for the mapped login and a safe path component; rejected or unsafe credentials give 401 without reaching a handler; an undecodable Authorization header only fails the request; identity headers do not influence the decision unless that back-end is configured. Tie: generated htpasswd files and attempts through the real Auth.login for every scheme/cache/mapping option, and whole requests with every header shape against none/denyall/htpasswd/remote_user/http_x_remote_user: status, WWW-Authenticate, principal served, store untouched.",
+  note="Trusted: Lean kernel, standard axioms; passlib/bcrypt verifiers enter the model as a truth table (assumed correct); LDAP/IMAP/PAM/OAuth2/Dovecot back-ends are outside the model; early exits (well-known, 405, 413) are modelled in C20/C01 not here.",
+  ref="5/C05"),
 }
 
 NA_REASON = "check not built yet (work in progress; see DESIGN.md section 5 for the plan)"
